@@ -441,6 +441,28 @@ def check_substitution(col: Collector, repo: Repo, rule: str):
     ok_semi = ok_semi and len(sg) == 2
     col.add(rule, em.short, "terminator-added-exactly-when-missing", ok_semi and one_each,
             f"`;` must be appended exactly when the stored line does not end in one, and nothing else happens to it (per path: {sg})", em.loc)
+    # ... and the emitter that receives every generated line stores it whole behind the indentation: one stored entry per call, no cutting
+    # or splitting of the text (str.splitlines() also splits at U+0085 / U+2028 / U+2029, which the escaper passes through inside literals)
+    se = repo.method("_cpp_source_emitter", "add_line")
+    prm = se.node.args.args[1].arg if len(se.node.args.args) > 1 else None
+    se_cuts = string_surgery(se.node)
+    stores = [n for n in walk_no_nested(se.node) if (isinstance(n, ast.AugAssign) and src(n.target).startswith("self._lines")) or
+              (isinstance(n, ast.Call) and call_name(n) in ("append", "extend", "insert") and src(n.func.value).startswith("self._lines"))]
+    recursive = [c for c in walk_no_nested(se.node) if isinstance(c, ast.Call) and call_name(c) == "add_line"]
+    whole = False
+    if len(stores) == 1 and prm:
+        val = stores[0].value if isinstance(stores[0], ast.AugAssign) else (stores[0].args[0] if stores[0].args else None)
+        elts = val.elts if isinstance(val, (ast.List, ast.Tuple)) else [val]
+        if len(elts) == 1 and isinstance(elts[0], ast.JoinedStr) and elts[0].values:
+            last = elts[0].values[-1]
+            whole = isinstance(last, ast.FormattedValue) and src(last.value) == prm and last.format_spec is None and last.conversion == -1 \
+                and not any(isinstance(v, ast.FormattedValue) and prm in src(v.value) for v in elts[0].values[:-1])
+        elif len(elts) == 1 and isinstance(elts[0], ast.BinOp) and isinstance(elts[0].op, ast.Add):
+            whole = src(elts[0].right) == prm and prm not in src(elts[0].left)
+    pme = parent_map(se.node)
+    cond_store = bool(stores) and bool(guards(se.node, stores[0], pme))
+    col.add(rule, se.short, "generated-line-stored-whole", whole and not se_cuts and not recursive and not cond_store,
+            f"the source emitter must store <indentation> + <the line as given>, once, unconditionally (text surgery: {se_cuts[:2]}, recursive calls: {len(recursive)})", se.loc)
     col.add(rule, em.short, "injected-line-emitted-whole", not cuts and one_each,
             f"the line carries the actual arguments already pasted in (string constants included): cutting or splitting it on C++ syntax such as `//` "
             f"cannot tell code from the inside of a string literal (found {cuts}; add_line calls: {len(adds)})", em.loc)
